@@ -133,10 +133,14 @@ Definition byz_frozen (o : Obs) (a : Z) : bool :=
    7 guilty validator's stake not reduced by exactly the penalty  8 bounty credited differs from / exceeds the penalties
    9 a frozen byzantine-fault record changed without a release    10 frozen validator still active after EndBlock
    11 a transaction that its handler's Validate must refuse (not signed by the named validator) was executed
+   14 a validator with a GUILTY verdict and no release since voted (opening an allegation is only
+      tied to the active status by the allegation handler: a convicted validator can still open one in
+      the block after its conviction, until EndBlock drops it; not part of C19's text)
+   (3 and 10 also fire for such a validator staking / being elected, whatever its freeze record says)
    13 the evidence status record of a staker differs from its election result (sent to Tendermint or not)
    12 a tracked request whose votes cross a share is still open after EndBlock (decision not taken once)
    known-finding trigger (second number): 2 guilty_without_validator_record *)
-Definition mon_step (c : Cfg) (h t : Z) (el : list Z) (prev : Obs) (st : Step) : list (Z * Z) :=
+Definition mon_step (c : Cfg) (h t : Z) (el conv : list Z) (prev : Obs) (st : Step) : list (Z * Z) :=
   let next := s_obs st in
   let frozen_kept :=
     flat_map (fun kv =>
@@ -155,6 +159,14 @@ Definition mon_step (c : Cfg) (h t : Z) (el : list Z) (prev : Obs) (st : Step) :
         end
       else []) (o_susp prev) in
   frozen_kept ++
+  (* [conv]: validators with a GUILTY verdict event and no successful release since (from the
+     observed events alone, independent of the freeze record): they must not act or be elected *)
+  match s_op st with
+  | OVote _ a _ => if s_ok st && inb a conv then [(14, 0)] else []
+  | OStake _ v _ _ => if s_ok st && inb v conv then [(3, 0)] else []
+  | OEnd _ _ => flat_map (fun a => if inb a (s_elected st) then [(10, 0)] else []) conv
+  | _ => []
+  end ++
   match s_op st with
   | OAllege id rep mal bh => if s_ok st && negb (inb rep el) then [(1, 0)] else []
   | OVote id a ch =>
@@ -210,14 +222,19 @@ Definition mon_step (c : Cfg) (h t : Z) (el : list Z) (prev : Obs) (st : Step) :
                           then [(10, 0)] else []) (o_susp prev)
   end.
 
-Fixpoint mon_case (c : Cfg) (i h t : Z) (el : list Z) (prev : Obs) (steps : list Step) : list (Z * Z * Z) :=
+Fixpoint mon_case (c : Cfg) (i h t : Z) (el conv : list Z) (prev : Obs) (steps : list Step) : list (Z * Z * Z) :=
   match steps with
   | [] => []
   | st :: rest =>
       let '(h', t') := match s_op st with OBegin h1 t1 _ => (h1, t1) | _ => (h, t) end in
       (* "active validator" = elected at the latest EndBlock (sent to Tendermint with positive power) *)
       let el' := match s_op st with OEnd _ _ => s_elected st | _ => el end in
-      map (fun v => (i, v.1, v.2)) (mon_step c h' t' el prev st) ++ mon_case c (i + 1) h' t' el' (s_obs st) rest
+      let conv' := match s_op st with
+                   | OEnd _ _ => (filter (fun v => v.2 = GUILTY) (s_verdicts st)).*1 ++ conv
+                   | ORelease a => if s_ok st then filter (fun x => x <> a) conv else conv
+                   | _ => conv
+                   end in
+      map (fun v => (i, v.1, v.2)) (mon_step c h' t' el conv prev st) ++ mon_case c (i + 1) h' t' el' conv' (s_obs st) rest
   end.
 
 (* flat list: case, step, code, trigger *)
@@ -225,7 +242,7 @@ Fixpoint monitor_violations (i : Z) (cs : list Case) : list Z :=
   match cs with
   | [] => []
   | c :: rest =>
-      flat_map (fun v => [i; v.1.1; v.1.2; v.2]) (mon_case (c_cfg c) 0 0 0 [] (c_init c) (c_steps c))
+      flat_map (fun v => [i; v.1.1; v.1.2; v.2]) (mon_case (c_cfg c) 0 0 0 [] [] (c_init c) (c_steps c))
       ++ monitor_violations (i + 1) rest
   end.
 
